@@ -290,3 +290,6 @@ def shrink_paths(scenario):
 
 
 from tesim.props.c04 import simplify  # noqa: E402,F401
+
+
+generate = gen_epi.with_backtest_driver(generate, 0.2)
